@@ -32,9 +32,24 @@ fn gen_spec(ctx: &mut Ctx, i: usize) -> rfc::S2k {
 
 /// parse a packet body with rpgp and decrypt it with the password; `(version, cipher?, session key)`
 fn read_back(body: &[u8], pw: &[u8]) -> Result<(u8, Option<u8>, Vec<u8>), String> {
+    // the packet arrives in one of the legal framings, in rotation (current or legacy header format,
+    // every length form): what is derived from the packet does not depend on how it was framed
+    static FRAMING: std::sync::atomic::AtomicUsize = std::sync::atomic::AtomicUsize::new(0);
+    let k = FRAMING.fetch_add(1, std::sync::atomic::Ordering::Relaxed);
     let r = guarded(|| {
-        let hdr = PacketHeader::new_fixed(Tag::SymKeyEncryptedSessionKey, body.len() as u32);
-        let p = SymKeyEncryptedSessionKey::try_from_reader(hdr, body).map_err(|e| format!("parse: {e}"))?;
+        let p = if k % 4 == 0 {
+            let hdr = PacketHeader::new_fixed(Tag::SymKeyEncryptedSessionKey, body.len() as u32);
+            SymKeyEncryptedSessionKey::try_from_reader(hdr, body).map_err(|e| format!("parse: {e}"))?
+        } else {
+            let (new_format, form) = [(true, 5u8), (false, 0), (false, 1), (false, 2), (true, 2), (true, 1)][(k / 4) % 6];
+            let framed = crate::frame::frame_fixed(new_format, 3, form, body)
+                .or_else(|| crate::frame::frame_fixed(new_format, 3, if new_format { 5 } else { 2 }, body))
+                .ok_or("framing")?;
+            match pgp::packet::PacketParser::new(&framed[..]).next() {
+                Some(Ok(pgp::packet::Packet::SymKeyEncryptedSessionKey(p))) => p,
+                other => return Err(format!("parse (framed new_format={new_format} form={form}): {:?}", other.map(|r| r.map(|_| ()).map_err(|e| e.to_string())))),
+            }
+        };
         let s2k = p.s2k().ok_or("no s2k")?;
         let alg = p.sym_algorithm().ok_or("no alg")?;
         let key = s2k.derive_key(pw, alg.key_size()).map_err(|e| format!("s2k: {e}"))?;
